@@ -97,7 +97,7 @@ def merge_routine(ctx, rule='C12-R2'):
     for caller, arg0_ok in (('ampycloud.data.AbstractChunk._setup_prms', None),
                             ('ampycloud.core.set_prms', None)):
         cf = p.func(caller, rule)
-        sites = [e for e in fx.own_events(caller) if e.kind == 'call' and call_head(e) == adj]
+        sites = [e for e in fx.deep_events(caller) if e.kind == 'call' and call_head(e) == adj]
         ctx.check(len(sites) >= 1, rule, caller, cf.node.name, cf.loc(),
                   f'{caller} does not merge through adjust_nested_dict',
                   instance=f'{caller} -> adjust_nested_dict')
@@ -110,7 +110,16 @@ def merge_routine(ctx, rule='C12-R2'):
                           f'set_prms merges into {T.show(a0)} instead of the global dictionary',
                           instance='set_prms: target is the global')
                 # and the result is bound back to the global
-                rebinds = [x for x in fx.own_events(caller) if x.kind == 'store' and x.target == G]
+                # what is merged is the content of the file the caller named
+                a1 = bound.get(af.params[1])
+                loaded = a1 is not None and T.contains(a1, lambda t: (tag(t) == 'mcall' and t[2] in ('load', 'safe_load', 'load_all')
+                                                                      or (tag(t) == 'call' and tag(t[1]) == 'g' and
+                                                                          t[1][1].split('.')[-1] in ('load', 'safe_load')))
+                                                       and T.contains(t, lambda y: y == ('p', cf.params[0])))
+                ctx.check(loaded, rule, caller, e.node, e.loc(),
+                          f'set_prms merges {T.show(a1, maxlen=100) if a1 is not None else None}: not the parameters loaded from '
+                          'the file it was given', instance='set_prms: source is the YAML file named by the caller')
+                rebinds = [x for x in fx.deep_events(caller) if x.kind == 'store' and x.target == G]
                 ctx.check(any(T.contains(x.value, lambda t: t == e.call) for x in rebinds) or
                           not rebinds, rule, caller, e.node, e.loc(),
                           'the merged dictionary is not what gets bound to dynamic.AMPYCLOUD_PRMS',
